@@ -185,16 +185,33 @@ class CryptoPair:
         self.aead_tag_size = 16
         self.recv = CryptoContext(setup_cb=recv_setup_cb, teardown_cb=recv_teardown_cb)
         self.send = CryptoContext(setup_cb=send_setup_cb, teardown_cb=send_teardown_cb)
+        self._recv_previous: Optional[CryptoContext] = None
         self._update_key_requested = False
 
     def decrypt_packet(
         self, packet: bytes, encrypted_offset: int, expected_packet_number: int
     ) -> tuple[bytes, bytes, int]:
-        plain_header, payload, packet_number, update_key = self.recv.decrypt_packet(
-            packet, encrypted_offset, expected_packet_number
-        )
+        try:
+            plain_header, payload, packet_number, update_key = self.recv.decrypt_packet(
+                packet, encrypted_offset, expected_packet_number
+            )
+        except CryptoError:
+            # After a key update which we initiated, the peer keeps using the
+            # previous keys until it has seen a packet protected with the new
+            # ones: such packets must still be readable (RFC 9001 section 6.1).
+            if self._recv_previous is None:
+                raise
+            plain_header, payload, packet_number, _ = (
+                self._recv_previous.decrypt_packet(
+                    packet, encrypted_offset, expected_packet_number
+                )
+            )
+            return plain_header, payload, packet_number
         if update_key:
             self._update_key("remote_update")
+        elif self._recv_previous is not None and not is_long_header(plain_header[0]):
+            # the peer is using the new keys, the previous ones can go
+            self._recv_previous = None
         return plain_header, payload, packet_number
 
     def encrypt_packet(
@@ -235,6 +252,7 @@ class CryptoPair:
     def teardown(self) -> None:
         self.recv.teardown()
         self.send.teardown()
+        self._recv_previous = None
 
     def update_key(self) -> None:
         self._update_key_requested = True
@@ -247,6 +265,17 @@ class CryptoPair:
             return self.recv.key_phase
 
     def _update_key(self, trigger: str) -> None:
+        if trigger == "local_update":
+            # keep the current receive keys until the peer has caught up
+            previous = CryptoContext(key_phase=self.recv.key_phase)
+            previous.aead = self.recv.aead
+            previous.cipher_suite = self.recv.cipher_suite
+            previous.hp = self.recv.hp
+            previous.secret = self.recv.secret
+            previous.version = self.recv.version
+            self._recv_previous = previous
+        else:
+            self._recv_previous = None
         apply_key_phase(self.recv, next_key_phase(self.recv), trigger=trigger)
         apply_key_phase(self.send, next_key_phase(self.send), trigger=trigger)
         self._update_key_requested = False
